@@ -202,7 +202,7 @@ class C05(Machine):
 
     def plan(self, tier):
         if tier == 'quick':
-            return {'runs': 6000, 'budget_s': 300, 'det_runs': 3,
+            return {'runs': 4000, 'budget_s': 600, 'det_runs': 3,
                     'run_timeout': 120, 'shrink_s': 60}
         return {'runs': 300000, 'budget_s': 3000, 'det_runs': 5,
                 'run_timeout': 200, 'shrink_s': 100}
@@ -249,6 +249,7 @@ class C05(Machine):
                                      'gcrotmk', 'cgs']),
             'kcalls': rng.randint(1, 5),
             'cb_first': rng.random() < 0.5,
+            'repeat': rng.choice([1, 1, 2, 2, 3]),
         }
         if cfg['nu']['pre'] + cfg['nu']['post'] + cfg['nu']['coarse'] == 0:
             cfg['nu']['post'] = 1
@@ -285,10 +286,20 @@ class C05(Machine):
                         out.append(var(shape=s))
         if c['maxit'] > 1:
             out.append(var(maxit=c['maxit'] - 1))
+        if c.get('repeat', 1) > 1:
+            out.append(var(repeat=c['repeat'] - 1))
         return out
 
     # ---------------------------------------------------------------- run
     def run(self, ctx, case):
+        """A run is a short history of identical solver calls in one
+        process: every call must start its direction patterns at the first
+        digit, whatever ran before (no state may survive a call)."""
+        for rep in range(case['config'].get('repeat', 1)):
+            ctx.opi = rep
+            self._solve_once(ctx, case)
+
+    def _solve_once(self, ctx, case):
         import emg3d
         import emg3d.solver as S
         import emg3d.core as core
@@ -524,7 +535,8 @@ class C05(Machine):
                                 op='solve')
             ctx.stats.probe('qc_levels_checked')
         nlev = len({e[1] for e in rec if e[0] == 'enter'})
-        ctx.nontrivial = nlev >= 2 and total >= 2
+        ctx.nontrivial = bool(getattr(ctx, 'nontrivial', False)) or (
+            nlev >= 2 and total >= 2)
         ctx.stats.probe('verdict/' + info['exit_message'].split(' ')[0])
         ctx.stats.feature(_cls(shape), cfg['cycle'], cfg['semicoarsening'],
                           cfg['linerelaxation'], cfg['clevel'],
